@@ -40,7 +40,6 @@ Where the mechanism lives (for orientation):
 
 - The repository is several Go modules: root (blockchain, mempool, mining, peer, database, netsync, ...), and sub-modules wire/, txscript/, btcec/, btcutil/, btcutil/psbt/, chaincfg/, chaincfg/chainhash/, address/, v2transport/. There are NO replace directives: the root module compiles against module-cache copies of the sub-modules, so an edit inside e.g. wire/ is only seen by tests run inside that sub-module (cd wire && go test ./...), not by the root module's tests. Make your change and your demonstration test live in the SAME module.
 - No network. Always run go with: export PATH=/root/go/pkg/mod/golang.org/toolchain@v0.0.1-go1.25.0.linux-amd64/bin:$PATH GOTOOLCHAIN=local GOFLAGS=-mod=mod GOPROXY=off GOSUMDB=off.
-- The worktree contains files named verif_contracts.go (comment-only, build-tagged); ignore them and do not edit them.
 - Run the existing tests of the package you changed (cd <module>/<pkg> && go test -vet=off -count=1 .) and confirm they still pass WITH your change. (In blockchain, the tests TestFlushOnPrune / TestInitConsistentState fail or are slow in this checkout with and without any change; skip them with -skip.) If an existing test fails, pick a different change.
 
 ## Deliverables in {rd}/{i}/
